@@ -1,10 +1,15 @@
-#!/bin/sh
-# Runs the analyser against every kept seeded change and prints which properties raise a VIOLATION.
+#!/bin/bash
+# Runs the analyser against every kept seeded change (4 at a time) and prints which properties raise a VIOLATION.
 cd "$(dirname "$0")/.."
-for d in seeded/*/; do
-  n=$(basename "$d")
+sh build.sh || exit 2
+run1() {
+  d=seeded/$1
   want=$(python3 -c "import json;print(json.load(open('$d/meta.json')).get('property',''))" 2>/dev/null)
-  got=$(tools/mutant.sh "$d/patch.diff" all 2>/dev/null | grep "^VIOLATION" | sed 's/.*property=\([A-Z0-9]*\).*/\1/' | sort -u | tr '\n' ' ')
+  st0=$(python3 -c "import json;print(json.load(open('$d/meta.json')).get('status',''))" 2>/dev/null)
+  got=$(tools/mutant.sh "$d/patch.diff" all 2>/dev/null | grep "^VIOLATION\|^PATCH-FAILED" | sed 's/.*property=\([A-Z0-9]*\).*/\1/' | sort -u | tr '\n' ' ')
   case " $got" in *" $want "*) st=CAUGHT;; *) st=MISSED;; esac
-  echo "$n want=$want got=[$got] $st"
-done
+  case "$st0" in obsolete*) st="$st(obsolete)";; esac
+  echo "$1 want=$want got=[$got] $st"
+}
+export -f run1
+ls seeded | grep -E "${1:-.}" | xargs -P 4 -I{} bash -c 'run1 {}' | sort
